@@ -12,6 +12,7 @@ import ArvVerif.Base.MD5
 import ArvVerif.Base.Loop
 import ArvVerif.Model.C12
 import ArvVerif.Model.C05
+import ArvVerif.Model.C05_Enum
 open ArvVerif ArvVerif.C05
 
 namespace C05Driver
@@ -109,39 +110,6 @@ def padNat (w n : Nat) : String :=
 
 def mountUUID (si mi : Nat) : String := "zzzzz-nyw5e-s" ++ padNat 5 si ++ "m" ++ padNat 8 mi
 def srvURL (si : Nat) : String := "http://keep" ++ toString si ++ ".example:25107"
-
-/-! ### all sorted permutations -/
-
-def insertions (a : α) : List α → List (List α)
-  | [] => [[a]]
-  | b :: l => (a :: b :: l) :: (insertions a l).map (b :: ·)
-
-def perms : List α → List (List α)
-  | [] => [[]]
-  | a :: l => (perms l).flatMap (insertions a)
-
-/-- consecutive runs of elements that the comparator does not separate -/
-def tieGroups (lt : α → α → Bool) : List α → List (List α)
-  | [] => []
-  | a :: l =>
-    match tieGroups lt l with
-    | [] => [[a]]
-    | g :: gs =>
-      match g with
-      | b :: _ => if !lt a b && !lt b a then (a :: g) :: gs else [a] :: g :: gs
-      | [] => [a] :: gs
-
-def fact : Nat → Nat
-  | 0 => 1
-  | n + 1 => (n + 1) * fact n
-
-/-- every list that `sort.Slice` with comparator `lt` may produce from `l` (none if too many) -/
-def allSorted (lt : α → α → Bool) (l : List α) : Option (List (List α)) :=
-  let base := l.mergeSort (fun a b => !lt b a)
-  let gs := tieGroups lt base
-  let n := gs.foldl (fun acc g => acc * fact g.length) 1
-  if n > 5000 then none
-  else some (gs.foldr (fun g acc => (perms g).flatMap (fun p => acc.map (p ++ ·))) [[]])
 
 /-! ### canonical form of the state carried between class iterations (order-free) -/
 
